@@ -33,6 +33,7 @@ From stdpp Require Import gmap.
 From RecordUpdate Require Import RecordUpdate.
 From Coq Require Import NArith.
 From OC Require Import Base.Bytes Model.P2Pure Model.Proto2 Model.P2Inst Proofs.P2Base Proofs.P2Phases Proofs.P2_Failure Proofs.P2_Crash Proofs.P2_Rollback.
+From OC Require Proofs.P2_ClassifyGen.
 Open Scope N_scope.
 
 Section C11.
@@ -83,6 +84,12 @@ Section C11.
     ∀ (c : code) (f : ftype),
     classify (observed c) = ClsFail f → f ≠ FCanceled ∧ f ≠ FForbidden ∧ f ≠ FUnavailable ∧ f ≠ FTimeout.
   Proof. exact (classes_dead_arms). Qed.
+
+  (* the table is the source's: [classify] agrees, code by code, with the switch of reconcileApply as tools/translate
+     reads it from /repo on every run (Gen/Tables.v apply_code_class / apply_failure_of_code) *)
+  Theorem C11_classes_are_the_source_switch :
+    ∀ c : code, c ≠ COk → P2_ClassifyGen.model_class c = P2_ClassifyGen.source_class c.
+  Proof. exact (P2_ClassifyGen.classify_is_the_source_switch). Qed.
 
   (* a transient answer: the invocation is exactly the device request *)
   Theorem C11_transient_effects :
@@ -308,6 +315,7 @@ Print Assumptions C11_classes_retry.
 Print Assumptions C11_classes_wait.
 Print Assumptions C11_classes_fail.
 Print Assumptions C11_classes_dead_arms.
+Print Assumptions C11_classes_are_the_source_switch.
 Print Assumptions C11_transient_effects.
 Print Assumptions C11_transient_keeps_pending.
 Print Assumptions C11_pending_applies_when_ok_effects.
